@@ -43,10 +43,10 @@ class C13(conncheck.ConnCheck):
     title = 'Abandoning the event loop at any event releases the socket'
     technique = ('explicit-state exploration of server-step histories (engine A, canonical-state caching) with abandonment of the '
                  'iterator at every event index by each of four mechanisms (break, exception in handler, generator.close(), '
-                 'exception leaving a with-block, reconnect-then-close); after gc the simulated descriptor must be closed or unreachable and the selector '
+                 'exception leaving a with-block, reconnect-then-close); afterwards close() must have been called on every simulated descriptor and the selector '
                  'closed; plus engine B schedules (preemption-bounded) of abandonment racing another thread that is inside a send')
     assumptions = [
-        '"released" = close() was called on the descriptor, or the socket object is unreachable after gc.collect() while the application still holds the WebSocket (CPython closes an unreachable socket)',
+        '"released" = close() was called on the descriptor (a socket object that merely became unreachable does not count; the unchanged tree meets the strict reading)',
         'break / exception mechanisms rely on CPython finalising the dropped generator immediately (reference counting)',
         'transport is the fake socket/selector of lv.world',
     ]
@@ -123,8 +123,8 @@ class C13(conncheck.ConnCheck):
             for tid, err in ex.sched.errors.items():
                 res.violate('C13:thread-exception:%s' % h, 'thread %d died with %r' % (tid, err), case)
             if not ex.released:
-                res.violate('C13:socket-leak:while-sending:%s' % h, 'iterator abandoned (%s) while another thread was inside a send: socket neither closed '
-                            'nor unreachable [schedule with %d preemption(s)]' % (self.THREAD_HARNESSES[h]['closer'], ex.sched.preemptions()), case)
+                res.violate('C13:socket-leak:while-sending:%s' % h, 'iterator abandoned (%s) while another thread was inside a send: socket still open '
+                            '(close() was never called) [schedule with %d preemption(s)]' % (self.THREAD_HARNESSES[h]['closer'], ex.sched.preemptions()), case)
             if not ex.selectors_closed:
                 res.violate('C13:selector-leak:while-sending:%s' % h, 'selector left open', case)
         S.explore_items(run_one, job['bound'], [tuple(i) for i in job['items']], on_exec)
@@ -174,16 +174,16 @@ class C13(conncheck.ConnCheck):
                     at += '/inner' if state['prev'] == 'ready' else '/outer'
                 model.sites.add('abandon@' + at)
                 model.abandoned = (state['mech'], at)
-                leaked = [c.idx for c in world.conns if not c.released()] or state.get('open_after_exit')
+                leaked = [c.idx for c in world.conns if not c.closed] or state.get('open_after_exit')
                 if leaked:
-                    model.problems.append(('socket-leak', 'iterator abandoned by %s at %s: socket #%s neither closed nor unreachable (events %s)'
+                    model.problems.append(('socket-leak', 'iterator abandoned by %s at %s: close() was never called on socket #%s (events %s)'
                                            % (state['mech'], at, leaked, model.seen_names)))
                 if not world.selectors_closed():
                     model.problems.append(('selector-leak', 'iterator abandoned by %s at %s: selector not closed' % (state['mech'], at)))
             elif state.get('finished'):
                 # not abandoned: iteration ran to its end, everything must be closed
                 gc.collect()
-                if not all(c.released() for c in world.conns) or not world.selectors_closed():
+                if not all(c.closed for c in world.conns) or not world.selectors_closed():
                     model.problems.append(('socket-leak', 'iteration completed but socket/selector still open (events %s)' % (model.seen_names,)))
         run.ws = None
         return model, run
